@@ -127,5 +127,46 @@ pub fn run(_a: &HashMap<String, String>) -> (usize, usize) {
             }
         }
     }
+    report("child runs first".to_string(), child_runs_first_case());
     (cases, viols)
+}
+
+static SLOW_PARENT: std::sync::atomic::AtomicBool = std::sync::atomic::AtomicBool::new(false);
+unsafe extern "C" fn slow_parent() {
+    if SLOW_PARENT.load(std::sync::atomic::Ordering::SeqCst) {
+        std::thread::sleep(std::time::Duration::from_millis(300));
+    }
+}
+
+/// The child reaches exec before the parent continues after fork (forced by a
+/// pthread_atfork parent handler): a started program must still yield a handle.
+pub fn child_runs_first_case() -> Vec<String> {
+    let mut v = vec![];
+    static ONCE: std::sync::Once = std::sync::Once::new();
+    ONCE.call_once(|| unsafe {
+        libc::pthread_atfork(None, Some(slow_parent), None);
+    });
+    for &setpgid in &[false, true] {
+        SLOW_PARENT.store(true, std::sync::atomic::Ordering::SeqCst);
+        let r = Popen::create(&["sleep", "2"], PopenConfig { setpgid, detached: true, ..Default::default() });
+        SLOW_PARENT.store(false, std::sync::atomic::Ordering::SeqCst);
+        match r {
+            Ok(mut p) => {
+                let _ = p.kill();
+                let _ = p.wait();
+            }
+            Err(e) => {
+                let mut st = 0;
+                let left = unsafe { libc::waitpid(-1, &mut st, libc::WNOHANG) };
+                v.push(format!("C07/err-iff-failed: create(setpgid={}) returned {:?} although the program was started (child exec'd before the parent continued); waitpid(-1, WNOHANG) = {}", setpgid, e, left));
+                loop {
+                    let mut st = 0;
+                    if unsafe { libc::waitpid(-1, &mut st, 0) } <= 0 {
+                        break;
+                    }
+                }
+            }
+        }
+    }
+    v
 }
